@@ -222,7 +222,7 @@ KNOWN_DEVS = ('subword-prefix-accepted', 'foreign-literal-stops-walk', 'longer-c
               'last-word-skipped-at-command-point')
 
 
-def explore_config(ast, probes, table, resolver, R0, K, L, alphabet, wb, max_paths, devs=KNOWN_DEVS, sample_every=7, only_matched=False, deadline=None, check_log=False, cross_every=0):
+def explore_config(ast, probes, table, resolver, R0, K, L, alphabet, wb, max_paths, devs=KNOWN_DEVS, sample_every=7, only_matched=False, deadline=None, check_log=False, cross_every=0, glob_free=True):
     eng = sym.Engine(max_paths=max_paths, deadline=deadline)
     eng.cross_every = cross_every
     ws = [Word('w%d' % i, L, alphabet) for i in range(1, K + 1)]
@@ -248,7 +248,7 @@ def explore_config(ast, probes, table, resolver, R0, K, L, alphabet, wb, max_pat
                 dev_variants.append((tuple(walk) + ('last-word-skipped-at-command-point',), choice))
 
     def program(e):
-        it = bashsym.Interp(e, probes, wb)
+        it = bashsym.Interp(e, probes, wb, glob_free_alphabet=glob_free)
         it.run(ast)
         rc, reply = bashsym.run_completion(it, '_cmd', ['cmd'] + words_sym + [prefix_sym], K + 1)
         ctx = refsym.Ctx(e.decide, table, [])
@@ -391,6 +391,9 @@ def _analyse(job, g, probes, text):
         alpha = set(''.join(vocab)) - set('*?[\\')
         for c in job.get('extra_alphabet', 'z=:'):
             alpha.add(c)
+        if job.get('glob_words'):
+            # typed words may contain * and ?: an unquoted use of a typed word as a pattern is then interpreted as the glob it is
+            alpha.update('*?')
         alphabet = ''.join(sorted(alpha))
         L = min(max([len(v) for v in vocab] + [1, longest_word(resolver, table)]) + job.get('extra_len', 1), job.get('max_len', 12))
         res['bounds'] = {'K': job['K'], 'L': L, 'alphabet': alphabet, 'configs': job['configs']}
@@ -404,7 +407,8 @@ def _analyse(job, g, probes, text):
             for K in range(0, job['K'] + 1):
                 r = explore_config(ast, probes, table, resolver, R0, K, L, alphabet, wb, job['max_paths'],
                                    devs=job.get('devs', KNOWN_DEVS), only_matched=job.get('only_matched', False), deadline=deadline,
-                                   check_log=job.get('check_log', False), cross_every=job.get('cross_every', 0))
+                                   check_log=job.get('check_log', False), cross_every=job.get('cross_every', 0),
+                                   glob_free=not job.get('glob_words', False))
                 res['paths'] += r['paths']
                 res['solver_s'] += r['solver_s']
                 if r['limit']:
